@@ -63,9 +63,9 @@ PROPS = {
         level="proof",
         min_obligations=40,
         replay_family="c17",
-        bounded=[dict(family="c17", what="OUTPUT half (the printer's String is well-formed UTF-8 and equals the bytes written) and end-to-end input checks: ill-formed UTF-8 inside strings, symbols, "
+        bounded=[dict(family="c17", what="supplementary end-to-end stand-in for what sits outside the extracted text (Display for Value, the to_string String equals the bytes written), and concrete witnesses: ill-formed UTF-8 inside strings, symbols, "
                                          "keywords and characters from byte-slice and stream sources is rejected (or returned as bytes); &str and byte-slice sources agree on multi-byte text",
-                      bound="9 ill-formed sequences x 9 contexts x 2 option sets x 2 sources; 16 multi-byte texts x 2 option sets; 9 values x 3 printer option sets")],
+                      bound="9 ill-formed sequences x 9 contexts x 2 option sets x 2 sources; 28 multi-byte / escape texts x 2 option sets; 9 values x 3 printer option sets; every scalar below U+0300 (+36 across the range) as a hex escape from &str and printed as char/string/symbol x 2 option sets")],
         explanation="PROVED (Verus, unbounded), input half: a `str` is built from input bytes in exactly two ways. (1) CHECKED - as_str (std::str::from_utf8): Ok only for "
                     "valid_utf8 bytes, an error otherwise; every scanner of the byte-slice and stream sources and the Emacs string scanner go through it. (2) UNCHECKED - "
                     "`unsafe str::from_utf8_unchecked` on the &str source's fast paths (symbols, R6RS strings): its safety precondition valid_utf8(bytes) is a `requires` of "
@@ -75,14 +75,21 @@ PROPS = {
                     "every call in parse_token / parse_list / parse_list_meta), stops at an ASCII terminator or quote, and what is copied into the scratch buffer is a "
                     "concatenation of such cuts, ASCII escape results and encode_utf8 of a char (parse_r6rs_escape keeps the scratch buffer well-formed and ends after an ASCII "
                     "byte). The UTF-8 facts (a position not inside a character is a boundary and vice versa, cuts at such positions, well-formed prefixes and chunks, ASCII) "
-                    "are proved from vstd::utf8's definitions, no axiom added. NOT PROVED, output half: that the text the printer emits is well-formed UTF-8 (to_string's "
-                    "from_utf8_unchecked) - assumed in unit print, BOUNDED stand-in on every run.",
+                    "are proved from vstd::utf8's definitions, no axiom added. PROVED (Verus, unbounded), output half: to_string / to_string_custom call `unsafe String::from_utf8_unchecked(vec)`; "
+                    "its safety precondition valid_utf8(vec) is a `requires` of the extracted helper and is discharged at both call sites from (a) to_vec's proved text equation "
+                    "vec == txt_value(options, value) - every emitting function of print.rs is verified against its piece of that text - and (b) lemma_txt_value_valid: "
+                    "valid_utf8(txt_value(o, v)) for every option set and every value, by structural induction over the value (lists, dotted tails, vectors) with per-piece lemmas: "
+                    "literal delimiters and #-tokens are ASCII, characters print as ASCII (#\\x / ?\\x + lower-case hex for anything outside 32..127), byte vectors as decimal octets or "
+                    "octal escapes, symbol and keyword names are `str`s, and string escaping replaces ASCII bytes by ASCII texts and copies every byte >= 0x80 in place, so the "
+                    "character structure of the `str` is kept (induction from boundary to boundary). A change that emits a non-ASCII scalar as `n as u8` fails the emitting "
+                    "function's text clause.",
         assumptions=[
-            "to_string / to_string_custom: `unsafe String::from_utf8_unchecked(vec)` is an assumed helper (vx_string_from_utf8_unchecked) - the output half is not decided by contracts",
+            "axiom_number_text_utf8: the texts of itoa::Buffer::format and ryu::Buffer::format_finite (uninterpreted dec_int / ryu_text) are well-formed UTF-8 because those crates return them as `&str`",
+            "String::from_utf8_unchecked(v) is modelled as returning the String whose UTF-8 encoding is v (std); the sink model of unit print (Write: sunk/offered) as for C07",
             "the non-fast-float build's f64_from_parts (from_utf8_unchecked on itoa output) is not extracted (only the default feature set is)",
             "vstd's axiom that a Rust `str` is well-formed UTF-8 (s.spec_bytes() == encode_utf8(s@))",
         ],
-        not_covered=["printer output well-formedness (bounded stand-in only)"],
+        not_covered=["`impl Display for Value` (value/mod.rs WriterFormatter: converts each written chunk with the CHECKED std::str::from_utf8, so no ill-formed str can arise there; not extracted)"],
         trusted=STD_TRUST,
     ),
     "C19": dict(
